@@ -267,19 +267,32 @@ class Ctx:
         whatever mix of `==`, `matches!`, `match` or early returns it is written with."""
         s, pc = self.sym(body)
         out = set()
-        for d in body.defs().get(0, []):
-            blk, i, kind, node = d
-            if body.is_cleanup(blk) or kind not in ("assign", "call"):
-                continue
-            e = sym.strip_transparent(s._def_expr(d, 0))
+
+        def values(l, want, depth=0):
+            """(block, expr, wanted truth value) for every definition the bool local may come from"""
+            for d in body.defs().get(l, []):
+                blk, i, kind, node = d
+                if body.is_cleanup(blk) or kind not in ("assign", "call"):
+                    continue
+                e = sym.strip_transparent(s._def_expr(d, 0))
+                w = want
+                while e[0] == "not":
+                    e, w = e[1], not w
+                if e[0] == "local" and len(e) == 2 and e[1] != l and depth < 5:
+                    for x in values(e[1], w, depth + 1):
+                        yield x
+                else:
+                    yield blk, e, w
+
+        for blk, e, want in values(0, True):
             cb = sym._const_bool(e[1]) if e[0] == "const" else None
-            if cb is False:
+            if cb is not None and cb != want:
                 continue
             for cs in pc.conditions(blk):
-                if cb is True:
+                if cb is not None:
                     out.add(cs)
                 else:
-                    a = sym.normalise_atom(e, True)
+                    a = sym.normalise_atom(e, want)
                     if not any(e2 == a[0] and sym._contradict(v2, a[1]) for (e2, v2) in cs):
                         out.add(cs | {a})
         out = sym._absorb(out)
